@@ -7,7 +7,8 @@ set -e
 PATCH=$(readlink -f "$1"); shift
 N=$$
 WT=/tmp/seedrun_$N
-git -C /repo worktree add --detach "$WT" HEAD >/dev/null 2>&1
+for k in 1 2 3 4 5; do git -C /repo worktree add --detach "$WT" HEAD >/dev/null 2>&1 && break; sleep 2; done
+[ -d "$WT" ] || { echo "seedrun: cannot create worktree"; exit 3; }
 cp /repo/Cargo.lock "$WT/Cargo.lock"
 git -C "$WT" apply "$PATCH"
 mkdir -p "$WT/_verif"
